@@ -3,7 +3,9 @@
 Domain: period (float milliseconds with awkward mantissas from 1 microsecond to 1e7 ms, or a
 timedelta), start time at epoch scale (1e9..4e9) or small scale, jitter 0 / 0.1 / 1.0 with
 ``tornado.ioloop.random`` replaced by a case-supplied sequence, callback kind (plain, raising,
-coroutine, raising coroutine), and a program of per-run actions that are *clock readings*: how late
+coroutine, raising coroutine) in a generated *form* (async def, @gen.coroutine, functools.partial of either, lambda
+returning a coroutine object / tornado Future / Task, callable object with async __call__, plain function returning an
+awaitable; plain / partial / lambda for synchronous callbacks), and a program of per-run actions that are *clock readings*: how late
 the loop fires the timer, how far the callback moves the virtual clock before returning (0, 0.3p,
 p-ulp, p, p+ulp, 2.5p, 1000p, an arbitrary factor, or *backwards* by one ulp / p/2 / 100p), how the
 clock moves while a coroutine invocation is in flight, stop() inside the callback / while the
@@ -24,6 +26,7 @@ Oracle (exact rationals, fractions.Fraction of the same floats; P = period in se
   run_time  a callback start is never before the most recently scheduled deadline (minus tol)
   overlap   a callback never starts while the previous (coroutine) invocation is in flight
   stop      no callback start after stop() returned, whatever is still pending
+  invoked   every fired periodic timer leads to exactly one callback invocation, unless stop() came before _run's first step
   one_timer at most one timer of the PeriodicCallback is armed (scheduled, not cancelled, not fired) at any time
 Excluded (not generated): start() while a coroutine invocation is still in flight, while a fired-but-not-yet-
 started _run is pending (same-instant stop()+start() restarts only when the timer had not fired yet), or without a
@@ -46,6 +49,13 @@ Sensitivity (quick tier, seed 1, one textual mutation at a time on a scratch cop
     while the coroutine runs / from a same-instant timer, the invocation COMPLETES, then start() 0.3 P later, i.e.
     before the old chain's next deadline.  Earlier version: missed (it always idled 3.5 P before restarting, so the
     stale timer had fired and been swallowed).
+  * coroutine-ness decided ONCE in __init__ (iscoroutinefunction / gen.is_coroutine_function) and `_run` awaits the
+    return value only if that flag is set, instead of `isawaitable(val)` per run   -> caught at seeds 1-3 (C39.overlap for
+    forms whose body starts at the call - partial/lambda of a @gen.coroutine function, a function returning a Task or an
+    already-begun coroutine; C39.callback_not_invoked for forms returning a bare coroutine object that is then never
+    awaited - functools.partial of an async def, lambda, callable object with async __call__) since the callback FORM
+    became a generated dimension and the "every fired timer => exactly one invocation unless stop() came first"
+    accounting was added.  Earlier version: missed (only `async def` handed over directly).
   * jitter one-sided: `1 + jitter * random()`                                   -> caught (C39.more_than_one_period_ahead)
   * no skipping: always `_next_timeout += period`                               -> caught (C39.before_current_time)
   * measured from now: `_next_timeout = now + period`                           -> caught (C39.off_grid)
@@ -53,12 +63,14 @@ Sensitivity (quick tier, seed 1, one textual mutation at a time on a scratch cop
 """
 import asyncio
 import datetime
+import functools
 import math
 from fractions import Fraction
 
 from hypothesis import strategies as st
 
 import tornado.ioloop
+from tornado import gen
 from tornado.concurrent import Future
 from tornado.ioloop import IOLoop, PeriodicCallback
 
@@ -70,7 +82,7 @@ READY = True
 RULE = (
     "Hypothesis cases: period from a pool of awkward floats (1us..1e7 ms, 0.1, 1/3, powers of two, timedelta) or a drawn "
     "float; start in {epoch-scale floats 1e9..4e9, small scale}; jitter in {0, 0.1, 1.0} with supplied random values; "
-    "callback kind in {plain, raising, coro, coro_raising}; 1..30 per-run actions (loop lateness, in-callback clock move "
+    "callback kind in {plain, raising, coro, coro_raising} x hand-over form (9 asynchronous, 3 synchronous forms); 1..30 per-run actions (loop lateness, in-callback clock move "
     "incl. backwards, in-flight clock chunks, stop inside/while running/between runs/from a same-instant timer or add_callback, restart). non-trivial = a stall "
     "> P or a backwards move occurred, or P < 10 us at epoch scale; distinct = SHA-1 of the case"
 )
@@ -121,6 +133,9 @@ class Rec:
         self.runaway = False
         self.dispatch_pending = False
         self.armed = []
+        self.fired = 0
+        self.excused = 0
+        self.excuse_given = False
 
     def fail(self, clause, detail):
         self.failures.append((clause, detail))
@@ -185,6 +200,8 @@ async def _scn(case, rec):
             # the loop has fired the periodic timer; PeriodicCallback._run is a coroutine whose first step
             # only executes on the next loop iteration
             rec.dispatch_pending = True
+            rec.excuse_given = False
+            rec.fired += 1
             slot["fired"] = True
             return callback()
 
@@ -274,20 +291,70 @@ async def _scn(case, rec):
             rec.labels.add("raising_callback")
             raise CbError("cb%d" % k)
 
-    async def coro_cb():
+    # An asynchronous invocation = begin() (recorded as the callback start; the invocation is "in flight" from here)
+    # followed by wait_end() (finishes when the harness opens the gate).  The FORM in which this reaches
+    # PeriodicCallback varies; only the value returned by calling the callback tells that it must be awaited.
+    def begin():
         k = on_start()
         rec.inflight = True
         rec.gate = Future()
-        try:
-            await rec.gate
-        finally:
-            rec.inflight = False
+        return k, rec.gate
+
+    def ended(k):
+        rec.inflight = False
         if kind == "coro_raising":
             rec.labels.add("raising_callback")
             raise CbError("cb%d" % k)
 
+    async def wait_end(k, gate):
+        try:
+            await gate
+        finally:
+            rec.inflight = False
+        ended(k)
+
+    async def coro_cb(*_a):
+        k, gate = begin()
+        await wait_end(k, gate)
+
+    @gen.coroutine
+    def gen_cb(*_a):
+        k, gate = begin()
+        try:
+            yield gate
+        finally:
+            rec.inflight = False
+        ended(k)
+
+    class CallableObj:
+        async def __call__(self):
+            k, gate = begin()
+            await wait_end(k, gate)
+
+    def sync_returning_coroutine():
+        k, gate = begin()
+        return wait_end(k, gate)
+
+    def sync_returning_task():
+        k, gate = begin()
+        return asyncio.ensure_future(wait_end(k, gate))
+
+    coro_forms = {
+        "async_def": coro_cb,
+        "gen_coroutine": gen_cb,
+        "partial_async": functools.partial(coro_cb, 1),
+        "partial_gen": functools.partial(gen_cb, 1),
+        "lambda_coro": lambda: coro_cb(),          # returns a coroutine object
+        "lambda_gen_future": lambda: gen_cb(),     # returns a tornado Future
+        "lambda_task": lambda: sync_returning_task(),
+        "callable_obj": CallableObj(),
+        "sync_returns_coroutine": sync_returning_coroutine,
+    }
+    plain_forms = {"plain": plain_cb, "partial_plain": functools.partial(plain_cb), "lambda_plain": lambda: plain_cb()}
     is_coro = kind.startswith("coro")
-    pc = PeriodicCallback(coro_cb if is_coro else plain_cb, _period_arg(case["period"]), jitter)
+    form = case.get("cform", "async_def") if is_coro else case.get("pform", "plain")
+    rec.labels.add("form." + form)
+    pc = PeriodicCallback((coro_forms if is_coro else plain_forms)[form], _period_arg(case["period"]), jitter)
 
     def start():
         rec.stopped = False
@@ -297,6 +364,10 @@ async def _scn(case, rec):
         pc.start()
 
     def stop():
+        if rec.dispatch_pending and not rec.excuse_given:
+            # the timer has fired but _run has not taken its first step: stop() legitimately prevents that invocation
+            rec.excuse_given = True
+            rec.excused += 1
         pc.stop()
         rec.stopped = True
 
@@ -367,6 +438,11 @@ async def _scn(case, rec):
         await vtime.settle()
         pc.stop()
         del io.add_timeout
+    # every fired periodic timer leads to exactly one invocation of the callback, unless stop() came first
+    expected = rec.fired - rec.excused
+    if not rec.runaway and len(rec.starts) != expected:
+        rec.fail("C39.callback_not_invoked" if len(rec.starts) < expected else "C39.extra_invocation",
+                 {"timers_fired": rec.fired, "stopped_before_first_step": rec.excused, "callback_starts": len(rec.starts)})
     return rec
 
 
@@ -479,6 +555,10 @@ CASE = st.fixed_dictionaries({
     "rand": st.lists(st.one_of(st.sampled_from([0.0, 0.25, 0.5, 0.75, 0.9999999999999999]), st.floats(0, 0.9999999999999999)),
                      min_size=1, max_size=8),
     "kind": st.sampled_from(["plain", "plain", "raising", "coro", "coro", "coro_raising"]),
+    # the FORM in which the callback is handed over (used for coroutine kinds / plain kinds respectively)
+    "cform": st.sampled_from(["async_def", "gen_coroutine", "partial_async", "partial_gen", "lambda_coro", "lambda_gen_future",
+                              "lambda_task", "callable_obj", "sync_returns_coroutine"]),
+    "pform": st.sampled_from(["plain", "plain", "partial_plain", "lambda_plain"]),
     "acts": st.lists(ACT, min_size=1, max_size=30),
 })
 
